@@ -46,6 +46,10 @@ CHECKS['C01'] = dict(
          'programs), the side conditions of the composition theorem are proved to follow from a condition on the source program alone '
          '(lowering_correct_source), and the semantics of the lowering language itself is validated against CPython on every run (event '
          'log, decisions incl. handler dispatch and the way the call ends, ~1000 runs). Proving the try/else case exposed a defect in the first repair of /repo, since corrected. '
+         '(3) functionalisation (control_flow.py turning if / while / for bodies into local functions whose non-state variables become locals of '
+         'the generated function) is proved equivalent on everything live for every annotated program that passes decidable side conditions '
+         '(functionalise_correct); the conditions are evaluated in Coq on every generated program, on the live sets of the real analysis and on the '
+         'locals of the really generated body functions read off with CPython\'s symtable (translation validation, ~115 programs per run). '
          'The end-to-end claim (13 passes + loader) is validated, not proved: a differential oracle runs original vs '
          'malt.to_graph(original) on seeded generated programs x decision vectors x option sets (recursive on/off, feature sets) and '
          'compares return value, ordered external-call log, exception type, mutated arguments and module globals.',
